@@ -492,7 +492,15 @@ pub fn gen_edit(rng: &mut Rng, sc: &Scenario, n: u64) -> Option<Step> {
     let pick_var = !var_keys.is_empty() && rng.chance(15);
     if pick_var {
         let k = rng.pick(&var_keys).clone();
-        let value = if rng.chance(10) { "!fail".to_string() } else { format!("{} {}\n", k, n) };
+        // commands print bytes, not text: some values differ from each other only in a byte that
+        // is not valid UTF-8
+        let value = match rng.weighted(&[10, 63, 15, 12]) {
+            0 => "!fail".to_string(),
+            // the same visible text with different trailing white space each time
+            3 => format!("{} steady{}", k, rng.pick(&["", "\n", "\n\n", " \n", "\t", " "])),
+            2 => format!("blob \\x{:02x} end\n", 0x80 + rng.below(0x7f)),
+            _ => format!("{} {}\n", k, n),
+        };
         return Some(Step::Fs(FsOp::SetVar { key: k, value }));
     }
     if files.is_empty() {
@@ -852,6 +860,13 @@ fn deletion_set(o: &InvObs) -> (BTreeSet<PathBuf>, Vec<PathBuf>, BTreeSet<PathBu
                                 del_dirs.push(rel.clone());
                                 del.insert(rel);
                             }
+                            // the path itself is a link: the link goes (if it points at something),
+                            // what it points to stays
+                            Some(Entry::Symlink(_)) => {
+                                if std::fs::metadata(root.join(&rel)).is_ok() || o.after_tree.get(&rel).is_none() {
+                                    del.insert(rel);
+                                }
+                            }
                             _ => {}
                         }
                     }
@@ -1027,7 +1042,7 @@ impl Property for C12 {
         "one case = 1-3 projects whose output directories are decorated with files not matching the extension filter, nested directories and symbolic links (to files, to directories, dangling, pointing outside the output) + a history of invocations containing `--clean` alone, `--clean T...` and plain runs, with edits in between. Oracle after every invocation: recursive tree snapshot (names, types, link targets, contents, mtimes) after vs before equals the model's deletion set (declared output paths, or only the matching files beneath them; recorded state of the cleaned scope) plus the effects of the scripts that ran; targets in the cleaned scope are never skipped. In a third of the cases zinoma is additionally killed at 12 evenly spaced decision indices inside the last --clean invocation: whatever was deleted so far must lie inside the deletion set and nothing else may differ. distinct_nontrivial = distinct order hashes among --clean invocations, completed or killed"
     }
     fn assumptions(&self) -> Vec<&'static str> {
-        vec!["a declared output path that is itself a symbolic link is not generated (DESIGN.md §7 C12 workload boundary)"]
+        vec!["a declared output path that is itself a symbolic link: cleaning removes the link only (what std's remove_file / remove_dir_all do with a link)"]
     }
     fn generate(&self, rng: &mut Rng, _case: u64) -> Scenario {
         let mut sc = gen_history(rng, &HistOpts { io: IoOpts { multi_project_pct: 50, max_targets: 5, cmd_pct: 10, cmd_output_pct: 0 }, max_invocations: 4, edit_pct: 30, touch_only: false, vary_entry: false, clean_pct: 70, fail_pct: 0, corrupt_pct: 0, io_fault_pct: 0 });
@@ -1101,6 +1116,24 @@ impl Property for C12 {
                 }
             }
         }
+        // the same output directory declared twice with different filters: both sets go
+        for p in sc.projects.iter_mut() {
+            for t in p.targets.iter_mut() {
+                let mut extra_res = vec![];
+                for r in t.output.iter() {
+                    if let Res::Paths { paths, extensions: Some(e) } = r {
+                        if e.iter().any(|x| x == "o") && rng.chance(30) {
+                            let mut p2 = vec![paths[0].clone()];
+                            if rng.chance(40) {
+                                p2.push(format!("{}-more", paths[0]));
+                            }
+                            extra_res.push(Res::Paths { paths: p2, extensions: Some(vec!["txt".to_string()]) });
+                        }
+                    }
+                }
+                t.output.extend(extra_res);
+            }
+        }
         // an output resource listing several paths, one of which never exists
         for p in sc.projects.iter_mut() {
             for t in p.targets.iter_mut() {
@@ -1112,6 +1145,27 @@ impl Property for C12 {
                 }
             }
         }
+        // a declared output path that is itself a symbolic link (to a file or to a directory kept
+        // elsewhere): cleaning removes the link, never what it points to
+        let mut link_files = vec![];
+        for p in sc.projects.iter_mut() {
+            for t in p.targets.iter_mut() {
+                if t.kind == Kind::Build && !t.writes.is_empty() && t.writes[0].ends_with(".out") && rng.chance(20) {
+                    let base = t.writes[0].trim_end_matches(".out").to_string();
+                    let link = format!("{}.latest", base);
+                    let name = base.rsplit('/').next().unwrap_or("x").to_string();
+                    if rng.chance(50) {
+                        link_files.push(FileSpec { path: format!("{}/store/{}-latest.txt", p.dir, name), kind: FileKind::File("kept elsewhere\n".into()) });
+                        link_files.push(FileSpec { path: format!("{}/{}", p.dir, link), kind: FileKind::Symlink(format!("../store/{}-latest.txt", name)) });
+                    } else {
+                        link_files.push(FileSpec { path: format!("{}/store/{}-latest/inner.txt", p.dir, name), kind: FileKind::File("kept elsewhere, in a directory\n".into()) });
+                        link_files.push(FileSpec { path: format!("{}/{}", p.dir, link), kind: FileKind::Symlink(format!("../store/{}-latest", name)) });
+                    }
+                    t.output.push(Res::Paths { paths: vec![link], extensions: None });
+                }
+            }
+        }
+        sc.files.extend(link_files);
         // a loaded project without any target that still holds recorded state of former targets
         if rng.chance(25) && sc.projects[0].targets.iter().all(|t| t.name != "zz") {
             let idx = sc.projects.len();
